@@ -549,6 +549,10 @@ func cmdRun(args []string) int {
 	// ---- verdict
 	knownList := loadKnown(filepath.Join(s.verif, "known_findings.txt"))
 	exit := 0
+	// the replay directory holds the counterexamples of this run only
+	if *only == "" {
+		os.RemoveAll(filepath.Join(s.verif, "evidence", "replay", h.Property))
+	}
 	os.MkdirAll(filepath.Join(s.verif, "evidence", "replay", h.Property), 0o755)
 	for _, r := range results {
 		for i, v := range r.Violations {
